@@ -3384,3 +3384,39 @@ def syn5(ctx):
     if n < 4:
         raise AnchorMissing("SYN-5: %d hand-overs of a segment in the two get_ipa (expected 4)" % n)
     return r
+
+
+# ---------------------------------------------------------------- RT-5: diacritics are written in an order that reads back
+
+def rt5(ctx):
+    """Segment::get_as_grapheme writes the diacritics of a segment in the order of src/diacritics.json; the word reader
+    applies them left to right and checks each diacritic's prerequisites on the segment built so far. So a diacritic D
+    that requires `f = v` must come after every diacritic E that can *establish* `f = v` (E's payload sets it and E does
+    not itself require it): otherwise a segment that needs E for D's prerequisite is spelled D E, which ASCA rejects."""
+    r = RuleResult("RT-5", "src/diacritics.json is ordered so that a diacritic that can establish another's prerequisite is written before it (the renderer writes in table order, the reader checks prerequisites left to right)", floor=15)
+    lib = ctx.lib
+    dj = json.loads(ctx.read("src/diacritics.json"))
+    g = ctx.fn(lib, "asca::seg::Segment::get_as_grapheme")
+    loops = [x for x in hirq.walk(g.hir["body"]) if x["e"] == "mcall" and x["name"] in ("iter", "into_iter") and "DIACRITS" in json.dumps(x["recv"])[:400]]
+    rev = [x for x in hirq.walk(g.hir["body"]) if x["e"] == "mcall" and x["name"] in ("rev", "sort", "sort_by", "sort_by_key") and "DIACRITS" in json.dumps(x)[:2000]]
+    if not loops:
+        raise AnchorMissing("RT-5: get_as_grapheme no longer iterates DIACRITS")
+    if rev:
+        raise AnchorMissing("RT-5: get_as_grapheme iterates DIACRITS in another order than the table's (%s): the order rule no longer describes it" % rev[0]["name"])
+    n = 0
+    for j, D in enumerate(dj):
+        for f, v in (D.get("prereqs") or {}).items():
+            for i, E in enumerate(dj):
+                if i == j or (E.get("payload") or {}).get(f) != v or (E.get("prereqs") or {}).get(f) == v:
+                    continue
+                n += 1
+                ok = i < j
+                r.inst("`%s` (can establish %s=%s) is written before `%s` (requires it)" % (E["name"], f, v, D["name"]), "src/diacritics.json", "ok" if ok else "report")
+                if not ok:
+                    r.report("RT-5|%s<%s|%s" % (E["name"], D["name"], f), "src/diacritics.json", "DIACRITS",
+                             "`%s` (entry %d) requires %s=%s, which `%s` (entry %d) can establish, but comes first in the table: a segment that needs both is printed base+%s+%s, and ASCA rejects that spelling when it reads it back (the prerequisite is not met yet)"
+                             % (D["name"], j, f, str(v).lower(), E["name"], i, D["diacrit"], E["diacrit"]))
+    if n < 15:
+        raise AnchorMissing("RT-5: %d (provider, dependent) pairs in diacritics.json (expected >= 15)" % n)
+    r.analysed = {"pairs": n, "diacritics": len(dj)}
+    return r
